@@ -90,3 +90,19 @@ def valid_wavenumbers(ws, sub):
         elif sub is not None:
             out.append(sub)
     return out
+
+
+# ---- Debye crystal ------------------------------------------------------------------
+def debye_f(x):
+    """integrand of the Debye function D3: x^3 / (e^x - 1)"""
+    return x**3 / (exp(x) - 1)
+
+
+def debye_g(x):
+    """x^2 ln(1 - e^-x)"""
+    return x**2 * log(1 - exp(-x))
+
+
+def debye_k(x):
+    """x^4 e^x / (e^x - 1)^2"""
+    return x**4 * exp(x) / (exp(x) - 1)**2
